@@ -468,6 +468,35 @@ func Decode(data []byte, opt Options) (f *File, err error) {
 	return f, nil
 }
 
+// pseudoLink rewrites the parent's hard link to a link pseudo-object into the link that object holds.
+func (d *dec) pseudoLink(path string, o *Object) {
+	f := d.f
+	i := strings.LastIndex(path, "/")
+	parent, name := path[:i], path[i+1:]
+	if parent == "" {
+		parent = "/"
+	}
+	inner := o.Links[0]
+	if inner.Name != name {
+		d.fail("object header 0x%x (%s): link pseudo-object holds a link named %q but is entered in its group as %q", d.abs(o.Addr), path, inner.Name, name)
+	}
+	po := f.Objects[f.Paths[parent]]
+	if po == nil {
+		return
+	}
+	n := 0
+	for k := range po.Links {
+		if po.Links[k].Kind == "hard" && po.Links[k].Addr == o.Addr {
+			n++
+			if po.Links[k].Name == name {
+				inner.Addr = UndefAddr
+				po.Links[k] = inner
+			}
+		}
+	}
+	delete(f.Paths, path)
+}
+
 // IsUnsupported reports whether err (from Decode) only says that the file uses a feature this decoder does not implement.
 func IsUnsupported(err error) bool {
 	_, ok := err.(*unsupportedError)
@@ -515,6 +544,11 @@ func (d *dec) walk() {
 		o := d.object(it.addr, it.path)
 		r()
 		f.Objects[it.addr] = o
+		if o.Kind == "link-pseudo-object" {
+			// present it the way it is meant: as a soft/external link of the containing group
+			d.pseudoLink(it.path, o)
+			continue
+		}
 		for _, l := range o.Links {
 			if l.Kind != "hard" {
 				continue
@@ -559,6 +593,16 @@ var KnownDeviations = []string{
 	"fheap-crc32",
 	"attr-btree2-type5",
 	"fheap-offsets-exclude-block-header",
+	"fheap-block-exceeds-heap-space",
+	"fheap-addr-zero-for-undefined",
+	"gcol-free-size-excludes-header",
+	"refcount-msg-no-version",
+	"attr-info-msg-type-0x0f",
+	"link-pseudo-object",
+	"link-fheap-id-length-8",
+	"external-link-value-layout",
+	"dense-link-msg-layout",
+	"dense-group-dataspace-msg",
 	"vlen-element-no-length",
 	"filter-pipeline-v2-with-v1-layout",
 	"fletcher32-le-words",
